@@ -374,6 +374,8 @@ class World:
         lives = [o.live for o in objs]
         self._state_tuple(step, names, step.get("drop"))
         binary = len(names) == 2
+        if "fault" in step:
+            return self._exec_faulted(step, idx, names, objs, lives)
         do_t1 = self.check_t1 and step.get("t1", False)
         do_t2 = self.check_t2 and step.get("t2", False)
         twins1, lossless = {}, True
@@ -418,6 +420,8 @@ class World:
                                 f"{op} answered {ans[2]!r}; before the transformation and its inverse "
                                 f"it answered {prev[2]!r}")
             self.stats.inc("probe:inverse_pair_checked")
+        if "expect" in step:
+            self._check_expectation(step, idx, ans)
         regime = self._regime(names)
         post_bits = {n: model.bits(self.slots[n].live) for n in dict.fromkeys(names)}
         # re-ask
@@ -493,6 +497,94 @@ class World:
             self.stats.inc("births")
             if op in ops.BINARY_OPERATORS and not regime["good_position"]:
                 self.slots[step["dst"]].sane = False
+
+    def _check_expectation(self, step, idx, ans):
+        """Consequences of a transformation stated by C09: T(p) in T(S) iff p in S; area and
+        moments scale as the affine map says.  `expect` refers to the answer of an earlier
+        step (before the transformation)."""
+        exp = step["expect"]
+        prev = self.answers.get(exp["ref"])
+        if prev is None or prev[0] == "raise" or ans[0] == "raise":
+            return
+        self.stats.inc("probe:transform_consequence_checked")
+        if exp["kind"] == "same_bool":
+            if prev[0] == "bool" and ans[0] == "bool" and prev[2] != ans[2]:
+                raise Violation("transform-consequence", "C09", idx,
+                                f"T(p) in T(S) is {ans[2]} but p in S was {prev[2]} "
+                                f"(p={_argval(exp.get('p'))}, T(p)={_argval(step.get('p'))})")
+            return
+        if exp["kind"] == "ratio" and prev[0] == "num" and ans[0] == "num":
+            ratio = ops.num(exp["ratio"])
+            a0, a1 = prev[2], ans[2]
+            if all(isinstance(x, (int, Fraction)) for x in (a0, a1, ratio)):
+                ok = a1 == a0 * ratio
+            else:
+                want = float(a0) * float(ratio)
+                ok = abs(float(a1) - want) <= 1e-9 * max(abs(want), abs(float(a1)), 1e-12) + exp.get("abs", 0.0)
+            if not ok:
+                raise Violation("transform-consequence", "C09", idx,
+                                f"{step['op']}{_argstr(step)} after the transformation is {a1!r}; "
+                                f"before it was {a0!r}, expected ratio {ratio!r}")
+
+    def _exec_faulted(self, step, idx, names, objs, lives):
+        """A non-mutating call interrupted at a seeded crash point (C11 inside a history):
+        the operands keep their history and caches, the run goes on afterwards."""
+        from . import c11
+
+        op = step["op"]
+        fl = step["fault"]
+        try:
+            twins = {n: _copy.deepcopy(self.slots[n].live) for n in dict.fromkeys(names)}
+        except Exception:  # noqa: BLE001
+            self.stats.inc("probe:twin_copy_raised_on_insane_value")
+            return
+        mon = faults.Monitor.get()
+        signal.setitimer(signal.ITIMER_REAL, CALL_WALL)
+        try:
+            _o, _p, info_c = mon.run(lambda: ops.perform(step, [twins[n] for n in names]),
+                                     mode=fl.get("mode", "structural"), budget=self.budget)
+            total = info_c["count"]
+            if total == 0:
+                self.stats.inc("fault:interrupt:no_events")
+                return
+            k = min(total, 1 + int(fl["kfrac"] * total))
+            outcome, payload, info = mon.run(lambda: ops.perform(step, lives), mode=fl.get("mode", "structural"),
+                                             target=k, exc=faults.ERROR_KINDS[fl["exc"]], budget=self.budget)
+        except faults.SimBudgetExceeded as e:
+            raise Violation("hang", "any", idx, f"interrupted call of {op}: {e}")
+        except CallTimeout:
+            raise HarnessError(f"faulted call of {op} at step {idx} exceeded {CALL_WALL}s wall clock")
+        finally:
+            signal.setitimer(signal.ITIMER_REAL, 0)
+        self.library_calls += 2
+        self.events += info["count"] + total
+        if not info["fired"]:
+            self.stats.inc("fault:interrupt:not_reached")
+        else:
+            self.stats.inc(f"fault:{fl['exc']}@k:fired")
+            if outcome == "return":
+                self.stats.inc("fault:swallowed_by_library")
+        self._logline(idx, op + "!fault", [k, total, outcome == "raise", list(info["fired_site"] or [])])
+        try:
+            self._check_bystanders(idx, set(names), op + " (interrupted)")
+            for n in dict.fromkeys(names):
+                self._check_operand_region(idx, n, op + " (interrupted)")
+        except Violation as v:
+            raise Violation("operands-after-fault", "C11", idx,
+                            f"{fl['exc']} injected at event {k}/{total} ({info['fired_site']}): {v.details}")
+        # no hidden state left behind: the operands answer a panel exactly as deep copies do
+        live_objs = [self.slots[n].live for n in dict.fromkeys(names)]
+        if all(self.slots[n].sane for n in names):
+            try:
+                copies = _copy.deepcopy(live_objs)
+            except Exception as e:  # noqa: BLE001
+                raise Violation("operands-after-fault", "C11", idx,
+                                f"deepcopy of the operands raises {type(e).__name__} after {fl['exc']}@{k}/{total}")
+            if all(model.bits(a) == model.bits(b) for a, b in zip(live_objs, copies)):
+                if c11.panel(live_objs) != c11.panel(copies):
+                    raise Violation("operands-after-fault", "C11", idx,
+                                    f"after {fl['exc']} at event {k}/{total} ({info['fired_site']}) the operands "
+                                    f"answer differently from their deep copies")
 
     # ------------------------------------------------------------- comparison
     def _regime(self, names):
@@ -615,7 +707,7 @@ def _ansstr(ans):
 
 
 def _argstr(step):
-    keys = [k for k in step if k not in ("op", "a", "b", "dst", "t1", "t2", "repeat", "drop", "same_answer_as", "needs")]
+    keys = [k for k in step if k not in ("op", "a", "b", "dst", "t1", "t2", "repeat", "drop", "same_answer_as", "needs", "expect")]
     return "(" + ", ".join(f"{k}={_argval(step[k])}" for k in keys) + ")"
 
 
